@@ -13,7 +13,7 @@ import (
 func c02Gen(c *core.Ctx, i int, lane int) (*lang.G, []*lang.N) {
 	for try := 0; ; try++ {
 		g := &lang.G{R: core.NewRng(c.Seed, "C02", i, lane*100+try), C: lang.Cfg{
-			Depth: 3 + i%3, Pool: []string{"a", "b", "c", "d"}, Data: true, HigherOrder: i%2 == 0, Variadic: true, TrOneIn: 2,
+			Depth: 3 + i%3, Pool: []string{"a", "b", "c", "d"}, Data: true, HigherOrder: i%2 == 0, Variadic: true, TrOneIn: 2, Recursion: true, Alias: i%3 == 0,
 		}}
 		if c.Thor && i%4 == 0 {
 			g.C.Depth = 6
